@@ -9,10 +9,14 @@ pub mod c03;
 pub mod c05;
 pub mod c09e;
 pub mod c10e;
+pub mod c14;
+pub mod c15;
 pub mod c16e;
 pub mod c18;
 pub mod c19e;
+pub mod c20;
 pub mod diffcommon;
+pub mod seqcommon;
 
 pub fn by_id(id: &str) -> Option<Arc<dyn DynMonitor>> {
     Some(match id {
@@ -22,6 +26,9 @@ pub fn by_id(id: &str) -> Option<Arc<dyn DynMonitor>> {
         "C05" => Arc::new(Erased(c05::C05)),
         "C18" => Arc::new(Erased(c18::C18)),
         "C16" => Arc::new(Erased(c16e::C16e)),
+        "C14" => Arc::new(Erased(c14::C14)),
+        "C15" => Arc::new(Erased(c15::C15)),
+        "C20" => Arc::new(Erased(c20::C20)),
         "C09" => Arc::new(Erased(c09e::C09e)),
         "C19" => Arc::new(Erased(c19e::C19e)),
         "C10" => Arc::new(Erased(c10e::C10e)),
